@@ -127,6 +127,8 @@ def rule_lk_taint(cx, rep, port):
                 continue
             if isinstance(piece, ast.Constant) and isinstance(piece.value, str):
                 continue
+            if isinstance(piece, ast.IfExp) and all(isinstance(x, ast.Constant) and isinstance(x.value, str) for x in (piece.body, piece.orelse)):
+                continue    # one of two constants: the pattern decides which, its text is not copied
             n += 1
             if isinstance(piece, ast.Call) and call_name(piece) in ESCAPERS[port] and len(piece.args) == 1:
                 rep.holds('append `{}`'.format(node_text(piece)), st, 'pattern text is escaped before it is appended')
@@ -159,9 +161,15 @@ def rule_lk_map(cx, rep, port):
     acc, ret = _accum_var(fd)
     mapping = {}
     specials = set()
+    from ..snippet import inline_single_defs
     for n in walk_no_nested(fd):
+        if isinstance(n, ast.AugAssign) and is_name(n.target, acc) and isinstance(n.value, ast.IfExp) and all(isinstance(x, ast.Constant) for x in (n.value.body, n.value.orelse)):
+            chars = _chars_tested(inline_single_defs(n.value.test, fd), pat)
+            if chars is not None and len(chars) == 1:
+                mapping[chars[0]] = n.value.body.value
+                mapping['<else of {}>'.format(chars[0])] = n.value.orelse.value
         if isinstance(n, ast.If):
-            chars = _chars_tested(n.test, pat)
+            chars = _chars_tested(inline_single_defs(n.test, fd), pat)
             if chars is None:
                 continue
             specials |= set(chars) if len(chars) > 1 else set()
@@ -296,21 +304,40 @@ def rule_lk_part(cx, rep, port):
     if len(loops) != 1:
         raise Undecided('like_to_regex: one scanning loop expected', fd)
     lp = loops[0]
-    if isinstance(lp, ast.For):
-        raise Undecided('like_to_regex: scanning loop is a for-loop (idiom not enumerated)', lp)
-    # index variable: while i < len(pattern)
-    t = lp.test
-    if not (isinstance(t, ast.Compare) and isinstance(t.ops[0], ast.Lt) and isinstance(t.left, ast.Name) and isinstance(t.comparators[0], ast.Call) and dotted(t.comparators[0].func) == 'len' and is_name(t.comparators[0].args[0], pat)):
-        rep.violated('loop bound', lp, 'the scan does not run while index < len(pattern): `{}`'.format(node_text(t)))
-        return
-    idx = t.left.id
-    # unconditional +1: a top-level statement of the loop body
-    incs = [st for st in lp.body if increment_of(st, idx) == 1]
-    nested_incs = [st for st in walk_no_nested(lp) if isinstance(st, (ast.AugAssign, ast.Assign)) and increment_of(st, idx) is not None and st not in incs]
-    if len(incs) != 1 or nested_incs:
-        rep.violated('index step', (incs + nested_incs + [lp])[0], 'the scan index is not advanced by exactly one, unconditionally, once per iteration')
-        return
-    rep.holds('index step', incs[0], 'index +1 per iteration, unconditionally')
+    from ..snippet import inline_single_defs
+
+    def is_len_pat(e):
+        e = inline_single_defs(e, fd)
+        return isinstance(e, ast.Call) and dotted(e.func) == 'len' and e.args and is_name(e.args[0], pat)
+    counted = isinstance(lp, ast.For)
+    if counted:
+        # for i in range(len(pattern)) / range(0, len(pattern)): the step is built in
+        it = lp.iter
+        if not (isinstance(lp.target, ast.Name) and isinstance(it, ast.Call) and dotted(it.func) == 'range' and len(it.args) in (1, 2)):
+            raise Undecided('like_to_regex: scanning loop `for {} in {}` not recognised'.format(node_text(lp.target), node_text(it, 60)), lp)
+        if not is_len_pat(it.args[-1]) or (len(it.args) == 2 and const_value(it.args[0]) != 0):
+            rep.violated('loop bound', lp, 'the scan does not visit every position 0 .. len(pattern)-1: `{}`'.format(node_text(it)))
+            return
+        idx = lp.target.id
+        touched = [st for st in walk_no_nested(lp) if isinstance(st, (ast.AugAssign, ast.Assign)) and any(is_name(t_, idx) for t_ in (st.targets if isinstance(st, ast.Assign) else [st.target]))]
+        if touched:
+            rep.violated('index step', touched[0], 'the scan index of the counting loop is modified in the body')
+            return
+        rep.holds('index step', lp, 'counting loop over every position')
+    else:
+        # index variable: while i < len(pattern)
+        t = lp.test
+        if not (isinstance(t, ast.Compare) and isinstance(t.ops[0], ast.Lt) and isinstance(t.left, ast.Name) and is_len_pat(t.comparators[0])):
+            rep.violated('loop bound', lp, 'the scan does not run while index < len(pattern): `{}`'.format(node_text(t)))
+            return
+        idx = t.left.id
+        # unconditional +1: a top-level statement of the loop body
+        incs = [st for st in lp.body if increment_of(st, idx) == 1]
+        nested_incs = [st for st in walk_no_nested(lp) if isinstance(st, (ast.AugAssign, ast.Assign)) and increment_of(st, idx) is not None and st not in incs]
+        if len(incs) != 1 or nested_incs:
+            rep.violated('index step', (incs + nested_incs + [lp])[0], 'the scan index is not advanced by exactly one, unconditionally, once per iteration')
+            return
+        rep.holds('index step', incs[0], 'index +1 per iteration, unconditionally')
     # flushes
     flushes = []
     for c in walk_no_nested(fd):
@@ -328,7 +355,12 @@ def rule_lk_part(cx, rep, port):
     # start variable p
     pv = in_loop[0][1][0]
     ok_in = in_loop[0][1] == (pv, idx)
-    ok_after = after[0][1][0] == pv and after[0][1][1] in (idx, 'end', 'len({})'.format(pat))
+    hi_after = after[0][1][1]
+    len_alias = {n_.targets[0].id for n_ in walk_no_nested(fd) if isinstance(n_, ast.Assign) and isinstance(n_.targets[0], ast.Name) and is_len_pat(n_.value)}
+    ok_after = after[0][1][0] == pv and (hi_after in ('end', 'len({})'.format(pat)) or hi_after in len_alias or (hi_after == idx and not counted))
+    if counted and hi_after == idx:
+        rep.violated('final flush', after[0][0], 'after a counting loop the index is the last position, not the length: the tail pattern[{}:{}] loses the last character'.format(pv, idx))
+        return
     rep.decide(ok_in, 'wildcard flush', in_loop[0][0], 'flushes pattern[{}:{}] before a wildcard'.format(pv, idx), 'the literal run flushed at a wildcard is pattern[{}:{}] (must be [{}:{}))'.format(in_loop[0][1][0], in_loop[0][1][1], pv, idx))
     rep.decide(ok_after, 'final flush', after[0][0], 'flushes the tail pattern[{}:end]'.format(pv), 'the final literal run is pattern[{}:{}] (must start at the position after the last wildcard and reach the end)'.format(after[0][1][0], after[0][1][1]))
     # p = i + 1 next to the flush, in the same guarded block
@@ -342,6 +374,8 @@ def rule_lk_part(cx, rep, port):
     for st in fd.body:
         if isinstance(st, ast.Assign) and isinstance(st.targets[0], ast.Name) and isinstance(st.value, ast.Constant):
             inits[st.targets[0].id] = st.value.value
+    if counted:
+        inits[idx] = 0
     rep.decide(inits.get(idx) == 0 and inits.get(pv) == 0, 'initial positions', fd, 'scan and run start at 0', 'scan index / run start do not start at 0: {}'.format({k: inits.get(k) for k in (idx, pv)}))
 
 
